@@ -142,6 +142,27 @@ def run(R):
     # delete/clear_graph never remove identity: covered by remove-in/clear-in above (they are not drop_graph/clear)
     R.floor("C04-R4", "catalog touches", len(cat_t), 6)
 
+    # ---- R6 a no-op mutation changes nothing
+    R.rule("C04-R6", "a delete that removes nothing changes nothing: in the deleting writer every write to an index field or to the "
+                     "graph catalog is dominated by the `quad is present` outcome of the membership test (the path that returns "
+                     "false performs no write) - graph identities exist from creation / first insert until dropped, a failed "
+                     "delete must not create or resurrect one")
+    from lib import guards as G
+    for key in sorted(delete_role):
+        b = prog.bodies[key]
+        ts = [t for t in writers.get(key, [])]
+        tests = [c for c in b.calls() if c.name() in ("contains_quad", "contains")]
+        R.ob("C04-R6", "tested:" + key, "%s tests membership before deleting" % b.name, len(tests) >= 1, where=b.where())
+        for n, t in enumerate(ts):
+            ok = False
+            for cd in G.conditions(b, t.bb):
+                if cd.get("kind") == "call" and cd["call"].name() in ("contains_quad", "contains") and cd.get("truth") is True:
+                    ok = True
+            R.ob("C04-R6", "guarded:%s:%s:%d" % (b.name, t.field, n), "the write to `%s` (%s) in %s happens only when the quad is present" % (t.field, t.op, b.name),
+                 ok, where=b.where(t.ln), detail=None if ok else "on the path that finds nothing to delete the %s is modified: a no-op delete in an unknown or "
+                 "dropped graph creates / resurrects its identity" % ("catalog" if t.field == CAT else "index"))
+    R.floor("C04-R6", "deleting writers", len(delete_role), 1)
+
     # ---- R5 rebuild
     r5(R)
 
